@@ -410,11 +410,15 @@ class FlowParser:
                         if index_variable:
                             self.sheet_parser.add_to_context(index_variable, i)
                         self._parse_block(depth + 1, "for")
+                    if not row.mainarg_iterlist:
+                        # Nothing to iterate over: skip the loop body unevaluated
+                        self._parse_block(depth + 1, "for", omit_content=True)
                     self.node_group_stack.pop()
                     self.append_node_group(new_node_group, row.row_id)
-                    self.sheet_parser.remove_from_context(iteration_variable)
-                    if index_variable:
-                        self.sheet_parser.remove_from_context(index_variable)
+                    if row.mainarg_iterlist:
+                        self.sheet_parser.remove_from_context(iteration_variable)
+                        if index_variable:
+                            self.sheet_parser.remove_from_context(index_variable)
                     self.sheet_parser.remove_bookmark(str(depth))
                 elif row.type == "begin_block":
                     new_node_group = NodeGroup()
